@@ -85,6 +85,6 @@ def diffEnvCalls : List (String × String) :=
 def reasonSkeleton : String :=
   String.join [
     "(block (if _ (== (. v0 oldEnv) (. starlark None)) (block (return false \"target has never been run\" nil nil)) _) (if _ (== (. v0 newData) (. v0 oldData)) (block (return true \"\" nil nil)) _) (if _ (|| (!= v2 nil) v1) (block (return false \"environment changed\" nil nil)) _) (if _ (u! v4) (block (return false \"\" nil (call (. fmt Errorf) \"old environment is not a dict (%v)\" (call (. v3 Type))))) _) (if _ (u! v4) (block (return false \"\" nil (call (. fmt Errorf) \"new environment is not a dict (%v)\" (call (. v5 Type))))) _) (if _ (!= v2 nil) (block (return false \"environment changed\" nil nil)) _) (:= (v7 v4) ((assert v6 (* (. diff MappingDiff))))) (var (v8) (array _ string) ()) (range _ v9 functionEnvKeys (block (if _ (call (. v7 Has) v9) (block (= (v8) ((call append v8 (call string v9))))) _))) (v",
-    "ar (v10) string ()) (switch _ (call len v8) (case (1) (= (v10) ((index v8 0)))) (case (2) (= (v10) ((+ (+ (index v8 0) \" and \") (index v8 1))))) (default (= (v10) ((+ (+ (call (. strings Join) (slice v8 _ (- (call len v8) 1) _) \", \") \", and \") (index v8 (- (call len v8) 1))))))) (return false (+ v10 \" changed\") v6 nil))"]
+    "ar (v10) string ()) (switch _ (call len v8) (case (0) (return false \"environment changed\" v6 nil)) (case (1) (= (v10) ((index v8 0)))) (case (2) (= (v10) ((+ (+ (index v8 0) \" and \") (index v8 1))))) (default (= (v10) ((+ (+ (call (. strings Join) (slice v8 _ (- (call len v8) 1) _) \", \") \", and \") (index v8 (- (call len v8) 1))))))) (return false (+ v10 \" changed\") v6 nil))"]
 
 end Dawn.Expected.Diff
